@@ -51,7 +51,14 @@ OER_ONLY = [
         'b6 BOOLEAN, b7 BOOLEAN, b8 BOOLEAN, b9 INTEGER (0..255) }')),
     dict(id='enum-oer', quick=True, text=M(
         'A ::= SEQUENCE { a ENUMERATED { n(-129), z(0), p(127), q(128) }, b ENUMERATED { s(-32769), t(32768) }, '
-        'c ENUMERATED { u(-8388609), v(8388607), w(2147483647) } }')),
+        'c ENUMERATED { u(-8388609), v(8388607), w(2147483647) }, d ENUMERATED { lo(-200), hi(100) }, '
+        'e ENUMERATED { m(-129), k(5) }, f ENUMERATED { g(-32769), h(127) } }')),
+    # additions whose encoded size is a generate-time constant around the short/long length-determinant boundary
+    dict(id='additions-const-len', quick=True, queries=('E',), text=M(
+        'A ::= SEQUENCE { a BOOLEAN, ..., b OCTET STRING (SIZE(127)) OPTIONAL, c OCTET STRING (SIZE(128)) OPTIONAL, '
+        'd OCTET STRING (SIZE(200)) OPTIONAL, f OCTET STRING (SIZE(256)) OPTIONAL }')),
+    dict(id='additions-fixed-seqof', quick=True, nbytes_cap=5, text=M(
+        'A ::= SEQUENCE { a BOOLEAN, ..., e SEQUENCE (SIZE(3)) OF BOOLEAN OPTIONAL, g SEQUENCE (SIZE(2)) OF INTEGER (0..300) }')),
     dict(id='seqof-fixed', quick=False, text=M(
         'A ::= SEQUENCE { a SEQUENCE (SIZE(3)) OF INTEGER (0..255), b OCTET STRING (SIZE(0..4)) DEFAULT \'AA\'H }')),
     # DESIGN C10: quantity field of one vs two octets (beyond the 4-element array bound, E/D only)
